@@ -377,7 +377,9 @@ class Run:
               "assumptions": self.assumptions, "wall_s": round(time.time() - self.t0, 2),
               "violations": len(self.violations), "known_findings": [k for k, _ in self.known], "notes": self.notes}
         # evidence/ only ever describes runs against /repo itself; runs pointed at a scratch tree (VERIF_REPO) write elsewhere
-        evdir = EVID if os.path.realpath(REPO) == "/repo" else os.path.join(ROOT, ".work", "evidence-scratch")
+        # (a --replay of one recorded case is not a tier of the check either)
+        scratch = os.path.realpath(REPO) != "/repo" or getattr(self, "replaying", None)
+        evdir = os.path.join(ROOT, ".work", "evidence-scratch") if scratch else EVID
         if evdir != EVID:
             ev["repo"] = os.path.realpath(REPO)
         os.makedirs(evdir, exist_ok=True)
